@@ -175,6 +175,13 @@ def mk_cases(ctx):
     for f in ([("\x1b[31mx", {"bold": True})], [("a", {}), ("\x1b[1mb\x1b[0m", {"fg": 31})], [("a\x1b[1mb", {})],
               [("\x1b[31m", {"bg": 44}), ("x", {})]):
         cases.append(dict(op="repr", f=f))
+    # multi-run values with EMPTY formatted runs (leading, middle, trailing; attributes equal to / differing from the
+    # neighbours'): they show no character but are part of the terminal string, hence of ==
+    E1, E2, E3 = ("", {"fg": 34}), ("", {"fg": 31}), ("", {"bold": True, "bg": 41})
+    R, Bd, Pl = ("ab", {"fg": 31}), ("cd", {"fg": 31, "bold": True}), ("ef", {})
+    for f in ([R, E1], [E1, R], [R, E1, Bd], [R, E2], [E2, R], [R, E2, Bd], [R, E3, Pl], [E3, R, Bd], [R, Bd, E1], [E1, E2, R],
+              [R, E1, E3, Bd], [Pl, E1], [E1, Pl], [Pl, E3, Pl], [E1], [E1, E3], [R, ("", {}), Bd], [("", {}), R, E1]):
+        cases.append(dict(op="repr", f=[list(x) for x in f]))
     # an escape sequence split between ADJACENT UNFORMATTED runs (built with +, which takes a plain str verbatim) next to a
     # formatted run: the repr joins the literals with + before they meet the FmtStr; not D27-shaped (no formatted run has
     # ESC '[' in its own text), so these must evaluate back exactly
@@ -418,6 +425,10 @@ def _oracle(c):
             return "repr evaluates to a %s" % type(v).__name__
         if eff_cells_value(v) != wire.eff_cells_of_chunks(c["f"]):
             return "repr evaluates to different characters/formatting: %r vs %r" % (eff_cells_value(v), wire.eff_cells_of_chunks(c["f"]))
+        # ... and to an EQUAL value in the library's own sense (same terminal string, hence same hash): this also sees
+        # empty formatted runs, which show no character
+        if str(v) != str(f) or not (v == f) or not (f == v) or hash(v) != hash(f):
+            return "eval(repr(f)) is not equal to f: terminal strings %r vs %r" % (str(v), str(f))
         return None
     raise KeyError(op)
 
